@@ -71,7 +71,24 @@ CHILD_WORLD = {
 IGNORED = {'.git', '.svn', 'CVS', '{arch}', '.arch-ids', '_darcs'}
 
 
+def many_entries(n):
+    """n orphans spread over 6 packages (and as many files that must stay)."""
+    out = []
+    for i in range(n):
+        d = 'pk%d' % (i % 6)
+        out.append('%s/o%03d.%s' % (d, i, 'pyc' if i % 3 else 'pyo'))
+        out.append('%s/k%03d.py' % (d, i))
+        out.append('%s/k%03d.pyc' % (d, i))
+        if i % 10 == 0:
+            out.append('%s/__pycache__/c%03d.cpython-312.pyc' % (d, i))
+    return out
+
+
 def cases(tier, seed):
+    # trees that are not small: 99 / 100 / 101 / 270 / 1000 orphans in one run
+    for n in (99, 100, 101, 270, 1000):
+        for ok in ('path', 'k', 'j2'):
+            yield [['many', n], ok]
     idx = list(range(len(MENU)))
     if tier == 'quick':
         plan = [(k, idx) for k in range(0, 4)] + [(4, idx[:CORE])]
@@ -139,7 +156,10 @@ def classify(entries, ok):
 
 def run_case(case):
     combo, ok = case
-    entries = [MENU[i] for i in combo]
+    if combo and combo[0] == 'many':
+        entries = many_entries(combo[1])
+    else:
+        entries = [MENU[i] for i in combo]
     root = os.path.join(ROOT, 'r')
     env.rmtree(root)
     os.makedirs(os.path.join(root, 'sub'))     # search paths must exist
